@@ -443,7 +443,7 @@ fn check_case(c: &Case, only_cut: Option<usize>, out: &mut Partial, rt: &tokio::
 fn gen_case(rng: &mut Rng, thorough: bool) -> Case {
     let class = rng.below(100);
     let focused = class < 65;
-    let opts = POpts { max_streams: if focused { 1 } else { 4 }, watermarks: true, patterns: true, merges: true };
+    let opts = POpts { max_streams: if focused { 1 } else { 4 }, watermarks: true, patterns: true, merges: true, functions: true };
     let mut p = gen_prog(rng, &opts);
     if class < 15 {
         // watermark class: one time window over A with a declared watermark
@@ -502,6 +502,7 @@ fn gen_case(rng: &mut Rng, thorough: bool) -> Case {
         out_of_order_pct: if !wm_sources.is_empty() { 25 } else if (15..25).contains(&class) { 20 } else if rng.chance(1, 6) { 15 } else { 0 },
         wm_sources,
         vars: rng.chance(1, 8),
+        lag: if class < 15 && rng.chance(1, 2) { Some(("A".to_string(), rng.range(2, 7))) } else { None },
     };
     let len = if thorough { 10 + rng.below(31) } else { 8 + rng.below(17) };
     let steps = gen_steps(rng, len, &io);
@@ -550,14 +551,20 @@ fn main() {
         let rt = rt();
         println!("program:\n{}", case.src);
         check_case(&case, cut, &mut out, &rt, true);
-        out.nontrivial(&1);
-        out.nontrivial(&2);
-        rep.merge(out);
-        std::process::exit(rep.finish());
+        // replay prints what it sees; it does not write evidence or replay files
+        let mut sigs: Vec<&String> = out.violations.iter().map(|v| &v.0).collect();
+        sigs.dedup();
+        for sg in &sigs {
+            println!("VIOLATION property={} signature={}", rep.property, sg);
+        }
+        for w in &out.inconclusive {
+            println!("INCONCLUSIVE property={} reason={}", rep.property, w);
+        }
+        std::process::exit(if !sigs.is_empty() { 1 } else if !out.inconclusive.is_empty() { 2 } else { 0 });
     }
 
     let threads = ncpu();
-    let cases = args.pick(1300usize, 60_000usize);
+    let cases = args.pick(1300usize, 30_000usize);
     let per_thread = cases / threads + 1;
     let thorough = args.thorough();
     let parts = parallel(threads, args.seed ^ 0xC19, move |ti, mut rng| {
